@@ -245,6 +245,19 @@ pub mod cluster {
         pub connected: bool,
     }
 
+    /// Gives pool-less nodes of a hook-built cluster a sharder (`(nr_shards, msb_ignore)` per host id),
+    /// so that `Node::sharder()` - and with it the shard of every ring replica - is observable.
+    pub fn set_sharders(state: &ClusterState, sharders: &HashMap<Uuid, (u16, u8)>) {
+        for (host_id, (nr_shards, msb)) in sharders {
+            if let (Some(node), Some(n)) = (
+                state.known_nodes.get(host_id),
+                std::num::NonZeroU16::new(*nr_shards),
+            ) {
+                node.verif_set_sharder(crate::routing::Sharder::new(n, *msb));
+            }
+        }
+    }
+
     pub struct KeyspaceSpec {
         pub name: String,
         pub strategy: Strategy,
